@@ -57,6 +57,10 @@ pub enum Op {
     JCheck { t: usize, r: String, q: String, fin: bool },
     /// `n` identical pre-filter calls in a row (thread-local scratch)
     JBurst { t: usize, r: String, q: String, fin: bool, n: usize },
+    /// thread `t` is parked at its `at`-th scheduling point inside a word_match (`jac`: pre-filter)
+    /// call on (r,q); meanwhile thread `t2` runs the same kind of call on (r2,q2) to the end; then
+    /// `t` is resumed. Both answers must be what a thread that compared nothing before gives.
+    Preempt { t: usize, t2: usize, jac: bool, r: String, q: String, fin: bool, r2: String, q2: String, fin2: bool, at: usize },
 }
 
 impl Op {
@@ -87,6 +91,7 @@ impl Op {
             Op::Jacc { .. } => "jacc",
             Op::WMatch { .. } => "wmatch",
             Op::JCheck { .. } => "jcheck",
+            Op::Preempt { .. } => "preempt",
             Op::JBurst { .. } => "jburst",
         }
     }
@@ -119,6 +124,7 @@ impl Op {
             Op::WMatch { t, r, q, fin } => json!({"op":"wmatch","t":t,"r":r,"q":q,"fin":fin}),
             Op::JCheck { t, r, q, fin } => json!({"op":"jcheck","t":t,"r":r,"q":q,"fin":fin}),
             Op::JBurst { t, r, q, fin, n } => json!({"op":"jburst","t":t,"r":r,"q":q,"fin":fin,"n":n}),
+            Op::Preempt { t, t2, jac, r, q, fin, r2, q2, fin2, at } => json!({"op":"preempt","t":t,"t2":t2,"jac":jac,"r":r,"q":q,"fin":fin,"r2":r2,"q2":q2,"fin2":fin2,"at":at}),
         }
     }
 
@@ -154,6 +160,11 @@ impl Op {
             "jacc" => Op::Jacc { t: gu(o, "t")?, a: gs(o, "a")?, b: gs(o, "b")? },
             "jburst" => Op::JBurst { t: gu(o, "t")?, r: gs(o, "r")?, q: gs(o, "q")?, fin: o.get("fin").and_then(|x| x.as_bool()).unwrap_or(true), n: gu(o, "n")? },
             "jcheck" => Op::JCheck { t: gu(o, "t")?, r: gs(o, "r")?, q: gs(o, "q")?, fin: o.get("fin").and_then(|x| x.as_bool()).unwrap_or(true) },
+            "preempt" => Op::Preempt {
+                t: gu(o, "t")?, t2: gu(o, "t2")?, jac: o.get("jac").and_then(|x| x.as_bool()).unwrap_or(false),
+                r: gs(o, "r")?, q: gs(o, "q")?, fin: o.get("fin").and_then(|x| x.as_bool()).unwrap_or(true),
+                r2: gs(o, "r2")?, q2: gs(o, "q2")?, fin2: o.get("fin2").and_then(|x| x.as_bool()).unwrap_or(true), at: gu(o, "at")?,
+            },
             "wmatch" => Op::WMatch { t: gu(o, "t")?, r: gs(o, "r")?, q: gs(o, "q")?, fin: o.get("fin").and_then(|x| x.as_bool()).unwrap_or(true) },
             other => return Err(format!("unknown op kind {}", other)),
         })
